@@ -281,7 +281,9 @@ def cases(tier, seed):
             out.append({"k": "packed", "u": "U2b", "i0": i0, "i1": min(n2b, i0 + 4)})
     out.append({"k": "U3"})
     out.append({"k": "arrays"})
+    out.append({"k": "arrays", "errstate": "raise"})
     out.append({"k": "floats"})
+    out.append({"k": "magnitudes"})
     out.append({"k": "spellings"})
     return out
 
@@ -298,6 +300,28 @@ def uni(name):
     if name == "U2m":
         return ("q2", "q10"), U2()
     return ("q0", "q1"), U2()
+
+
+def run_arrays(R, nonzero_divisors=False, tag=None):
+    names = ("q0",)
+    pool = [[((2,), 1), ((0,), -1)], [((1,), 2)], [], [((0,), 2)], [((3,), 1), ((1,), 1)], [((1,), 1), ((0,), 1)]]
+    dpool = [t for t in pool if t] if nonzero_divisors else pool
+    for sa, sb in [((2,), (2,)), ((3,), (3,)), ((2, 2), (2, 2)), ((2, 1), (1, 2)), ((3,), ()), ((), (3,)), ((2, 3), (3,)), ((1,), (1,))]:
+        for ra, rb in itertools.product(range(3), range(4)):
+            spa = space.array_spec(names, sa, space.fill(pool, sa, ra, 1))
+            spb = space.array_spec(names, sb, space.fill(dpool, sb, rb + 1, 2 if rb % 2 else 1))
+            judge_divmod(R, f"arrays {sa}/{sb} rot {ra},{rb}", build_checked(spa), build_checked(spb), model_of(spa), model_of(spb),
+                         ["arrays"] + ([tag] if tag else []), None)
+            R.state(("arr", sa, sb, ra, rb))
+    names2 = ("q0", "q1")
+    pool2 = [[((1, 0), 1)], [((0, 1), 2)], [((1, 1), 1), ((0, 0), 1)], [], [((0, 0), -2)], [((2, 0), 1)]]
+    dpool2 = [t for t in pool2 if t] if nonzero_divisors else pool2
+    for sa, sb in [((3,), (3,)), ((2, 1), (1, 3))]:
+        for ra, rb in itertools.product(range(3), range(3)):
+            spa = space.array_spec(names2, sa, space.fill(pool2, sa, ra, 1))
+            spb = space.array_spec(names2, sb, space.fill(dpool2, sb, rb, 1))
+            judge_divmod(R, f"arrays2 {sa}/{sb} rot {ra},{rb}", build_checked(spa), build_checked(spb), model_of(spa), model_of(spb),
+                         ["arrays"] + ([tag] if tag else []), None)
 
 
 def run_case(case, R):
@@ -359,24 +383,22 @@ def run_case(case, R):
         names, pool = U3()
         spa, spb = space.scalar_spec(names, pool[case["i"]]), space.scalar_spec(names, pool[case["j"]])
         judge_divmod(R, "U3 pair", build_checked(spa), build_checked(spb), model_of(spa), model_of(spb), ["0-d", "U3"], None)
+    elif k == "arrays" and case.get("errstate"):
+        # the same arrays (divisors without zero elements) while numpy is told to raise on every floating-point error: elements
+        # that sit out a step must not be divided at all
+        with numpy.errstate(divide="raise", invalid="raise", over="raise"):
+            run_arrays(R, nonzero_divisors=True, tag="errstate=raise")
     elif k == "arrays":
+        run_arrays(R)
+    elif k == "magnitudes":
+        # float coefficients of very different magnitude: products of an element that sits out a step must not leak into it
         names = ("q0",)
-        pool = [[((2,), 1), ((0,), -1)], [((1,), 2)], [], [((0,), 2)], [((3,), 1), ((1,), 1)], [((1,), 1), ((0,), 1)]]
-        for sa, sb in [((2,), (2,)), ((3,), (3,)), ((2, 2), (2, 2)), ((2, 1), (1, 2)), ((3,), ()), ((), (3,)), ((2, 3), (3,)), ((1,), (1,))]:
-            for ra, rb in itertools.product(range(3), range(4)):
-                spa = space.array_spec(names, sa, space.fill(pool, sa, ra, 1))
-                spb = space.array_spec(names, sb, space.fill(pool, sb, rb + 1, 2 if rb % 2 else 1))
-                judge_divmod(R, f"arrays {sa}/{sb} rot {ra},{rb}", build_checked(spa), build_checked(spb), model_of(spa), model_of(spb),
-                             ["arrays"], None)
-                R.state(("arr", sa, sb, ra, rb))
-        names2 = ("q0", "q1")
-        pool2 = [[((1, 0), 1)], [((0, 1), 2)], [((1, 1), 1), ((0, 0), 1)], [], [((0, 0), -2)], [((2, 0), 1)]]
-        for sa, sb in [((3,), (3,)), ((2, 1), (1, 3))]:
-            for ra, rb in itertools.product(range(3), range(3)):
-                spa = space.array_spec(names2, sa, space.fill(pool2, sa, ra, 1))
-                spb = space.array_spec(names2, sb, space.fill(pool2, sb, rb, 1))
-                judge_divmod(R, f"arrays2 {sa}/{sb} rot {ra},{rb}", build_checked(spa), build_checked(spb), model_of(spa), model_of(spb),
-                             ["arrays"], None)
+        for big in (1e200, 1e-200, 1e300):
+            for da, db in itertools.product(([3, 3], [3, 1], [2, 0], [1, 3]), ([1, 2], [2, 1], [0, 2], [1, 1])):
+                spa = space.array_spec(names, (2,), [[((da[0],), big)], [((da[1],), big), ((0,), 1.0)]], "f8")
+                spb = space.array_spec(names, (2,), [[((db[0],), big)], [((db[1],), big / 4)]], "f8")
+                judge_divmod(R, f"magnitudes {big} degrees {da}/{db}", build_checked(spa), build_checked(spb), model_of(spa), model_of(spb), ["magnitudes"], None)
+                R.state(("mag", big, str(da), str(db)))
     elif k == "floats":
         names = ("q0",)
         pool = [[((2,), 0.5), ((0,), -1.5)], [((1,), 2.0)], [((0,), 0.25)], [((3,), 1.0), ((1,), 0.5)], [((1,), -1.5), ((0,), 1.0)], []]
